@@ -866,7 +866,11 @@ func (c *compiler) evalCallExpression(node *ast.CallExpression) (interface{}, er
 		}
 	}
 
-	res := rv.Call(args)
+	res, err := safeCall(rv, args)
+	if err != nil {
+		return nil, fmt.Errorf("could not call %s function: %w", node.Function, err)
+	}
+
 	if len(res) > 0 {
 		if e, ok := res[len(res)-1].Interface().(error); ok {
 			return nil, fmt.Errorf("could not call %s function: %w", node.Function, e)
@@ -892,6 +896,24 @@ func (c *compiler) evalCallExpression(node *ast.CallExpression) (interface{}, er
 	}
 
 	return nil, nil
+}
+
+// safeCall runs fn.Call(args). If the called function panics - a helper
+// handed a value it does not expect, a nil function, a value method on a nil
+// pointer - the panic value is returned as an error instead of crashing the
+// render, the way text/template treats the functions it calls.
+func safeCall(fn reflect.Value, args []reflect.Value) (res []reflect.Value, err error) {
+	defer func() {
+		if r := recover(); r != nil {
+			if e, ok := r.(error); ok {
+				err = e
+			} else {
+				err = fmt.Errorf("%v", r)
+			}
+		}
+	}()
+
+	return fn.Call(args), nil
 }
 
 func (c *compiler) evalForExpression(node *ast.ForExpression) (interface{}, error) {
